@@ -40,57 +40,69 @@ Proof. repeat split. Qed.
 Theorem gen_type_size t : sc_type_size t = let '(v, rc) := stub_type_size t in (rc, Some v).
 Proof. reflexivity. Qed.
 
-(* Pack_size calls Type_size (t, size) and multiplies what that stored *)
+(* Pack_size calls Type_size (t, size); with what that stored: the representability guard, the product, the code *)
 Theorem gen_pack_size incount t sizeptr r :
   let '(v, _) := stub_type_size t in
-  stub_pack_size incount t sizeptr r v = (1, t, sizeptr, pack_bytes incount t, SUCCESS) /\
-  sc_pack_size incount t = (SUCCESS, Some (pack_bytes incount t)).
-Proof. split; reflexivity. Qed.
+  stub_pack_size incount t sizeptr r v = (1, t, sizeptr, pack_size_value incount t, pack_size_code incount t) /\
+  sc_pack_size incount t = (pack_size_code incount t, Some (pack_size_value incount t)).
+Proof.
+  split; [|reflexivity]. unfold stub_pack_size, stub_type_size, pack_size_value, pack_size_code, pack_size_refuses, pack_bytes. cbn [fst].
+  destruct ((0 <? incount) && (s32 (cdiv 2147483647 incount) <? s32 (sc_mpi_sizeof t)))%bool; reflexivity.
+Qed.
 
-(* Pack: calls Pack_size (incount, t, comm, &size); with size = what that stores: the space test, the memcpy, the
-   advance of *position, the code *)
-Theorem gen_pack inbuf incount t outbuf outsize pos comm r :
-  let size := pack_bytes incount t in
+(* Pack: calls Pack_size (incount, t, comm, &size); for EVERY code r it returns and EVERY size it stores: a code other than
+   SUCCESS is returned at once; else the space test, the memcpy, the advance of *position, the code *)
+Theorem gen_pack inbuf incount t outbuf outsize pos comm r size :
   stub_pack inbuf incount t outbuf outsize pos comm r size =
-  if pack_refuses pos size outsize then (1, incount, t, comm, 0, 0, 0, 0, pos, ERR_NO_SPACE)
+  if negb (r =? SUCCESS) then (1, incount, t, comm, 0, 0, 0, 0, pos, r)
+  else if pack_refuses pos size outsize then (1, incount, t, comm, 0, 0, 0, 0, pos, ERR_NO_SPACE)
   else let '(d, s, n) := pack_copy pos size in
        (1, incount, t, comm, 1, outbuf + d, inbuf + s, n, pack_advance pos size, SUCCESS).
 Proof.
-  cbv zeta. unfold stub_pack, pack_copy, pack_advance.
-  change (s32 (outsize - pos) <? pack_bytes incount t) with (pack_refuses pos (pack_bytes incount t) outsize).
-  destruct (pack_refuses pos (pack_bytes incount t) outsize); [reflexivity|]. rewrite Z.add_0_r. reflexivity.
+  unfold stub_pack, pack_copy, pack_advance.
+  change (r =? dt_SC3_MPI_SUCCESS) with (r =? SUCCESS). destruct (negb (r =? SUCCESS)); [reflexivity|].
+  change (s32 (outsize - pos) <? size) with (pack_refuses pos size outsize).
+  destruct (pack_refuses pos size outsize); [reflexivity|]. rewrite Z.add_0_r. reflexivity.
 Qed.
 
-Theorem gen_unpack inbuf insize pos outbuf outcount t comm r :
-  let size := pack_bytes outcount t in
+Theorem gen_unpack inbuf insize pos outbuf outcount t comm r size :
   stub_unpack inbuf insize pos outbuf outcount t comm r size =
-  if pack_refuses pos size insize then (1, outcount, t, comm, 0, 0, 0, 0, pos, ERR_NO_SPACE)
+  if negb (r =? SUCCESS) then (1, outcount, t, comm, 0, 0, 0, 0, pos, r)
+  else if pack_refuses pos size insize then (1, outcount, t, comm, 0, 0, 0, 0, pos, ERR_NO_SPACE)
   else let '(d, s, n) := unpack_copy pos size in
        (1, outcount, t, comm, 1, outbuf + d, inbuf + s, n, pack_advance pos size, SUCCESS).
 Proof.
-  cbv zeta. unfold stub_unpack, unpack_copy, pack_advance.
-  change (s32 (insize - pos) <? pack_bytes outcount t) with (pack_refuses pos (pack_bytes outcount t) insize).
-  destruct (pack_refuses pos (pack_bytes outcount t) insize); [reflexivity|]. rewrite Z.add_0_r. reflexivity.
+  unfold stub_unpack, unpack_copy, pack_advance.
+  change (r =? dt_SC3_MPI_SUCCESS) with (r =? SUCCESS). destruct (negb (r =? SUCCESS)); [reflexivity|].
+  change (s32 (insize - pos) <? size) with (pack_refuses pos size insize).
+  destruct (pack_refuses pos size insize); [reflexivity|]. rewrite Z.add_0_r. reflexivity.
 Qed.
 
-(* the model's Pack / Unpack written over the generated bodies: the model IS the generated control flow with the
-   generated memcpy arguments applied to the two lists (addresses 0 for both buffers give the offsets) *)
+(* the model's Pack / Unpack written over the generated bodies: the model IS the generated control flow, fed with the code and
+   the size of the generated Pack_size, with the generated memcpy arguments applied to the two lists (addresses 0 for both
+   buffers give the offsets) *)
 Theorem gen_pack_model inbuf incount t outbuf outsize pos :
   sc_pack inbuf incount t outbuf outsize pos =
-  let '(_, _, _, _, called, dst, src, n, pos', rc) := stub_pack 0 incount t 0 outsize pos 0 0 (pack_bytes incount t) in
+  let '(_, _, _, size, r) := stub_pack_size incount t 0 0 (fst (stub_type_size t)) in
+  let '(_, _, _, _, called, dst, src, n, pos', rc) := stub_pack 0 incount t 0 outsize pos 0 r size in
   (rc, if called =? 1 then memcpy_at outbuf dst inbuf src n else Some outbuf, pos').
 Proof.
-  pose proof (gen_pack 0 incount t 0 outsize pos 0 0) as H. cbv zeta in H. rewrite H. unfold sc_pack.
-  destruct (pack_refuses pos (pack_bytes incount t) outsize); reflexivity.
+  pose proof (gen_pack_size incount t 0 0) as Hs. unfold stub_type_size in Hs. cbn [fst] in *. unfold stub_type_size. cbn [fst].
+  destruct Hs as (-> & _). rewrite gen_pack. unfold sc_pack. cbv zeta.
+  destruct (negb (pack_size_code incount t =? SUCCESS)); [reflexivity|].
+  destruct (pack_refuses pos (pack_size_value incount t) outsize); reflexivity.
 Qed.
 
 Theorem gen_unpack_model inbuf insize pos outbuf outcount t :
   sc_unpack inbuf insize pos outbuf outcount t =
-  let '(_, _, _, _, called, dst, src, n, pos', rc) := stub_unpack 0 insize pos 0 outcount t 0 0 (pack_bytes outcount t) in
+  let '(_, _, _, size, r) := stub_pack_size outcount t 0 0 (fst (stub_type_size t)) in
+  let '(_, _, _, _, called, dst, src, n, pos', rc) := stub_unpack 0 insize pos 0 outcount t 0 r size in
   (rc, if called =? 1 then memcpy_at outbuf dst inbuf src n else Some outbuf, pos').
 Proof.
-  pose proof (gen_unpack 0 insize pos 0 outcount t 0 0) as H. cbv zeta in H. rewrite H. unfold sc_unpack.
-  destruct (pack_refuses pos (pack_bytes outcount t) insize); reflexivity.
+  pose proof (gen_pack_size outcount t 0 0) as Hs. unfold stub_type_size in Hs. cbn [fst] in *. unfold stub_type_size. cbn [fst].
+  destruct Hs as (-> & _). rewrite gen_unpack. unfold sc_unpack. cbv zeta.
+  destruct (negb (pack_size_code outcount t =? SUCCESS)); [reflexivity|].
+  destruct (pack_refuses pos (pack_size_value outcount t) insize); reflexivity.
 Qed.
 
 (* ---- communicators, groups, Init_thread: the value stored through the output pointer and the code ---- *)
